@@ -61,6 +61,10 @@ impl Property for C12 {
             if i < n_routers {
                 router_addrs.push(s.addr);
                 real.routers.push(s.addr.to_string());
+                // (a router may be listed as a starting node as well; it is a router all the same)
+                if rng.chance(1, 3) {
+                    real.nodes.push(s.addr);
+                }
             } else if real.nodes.len() < 6 {
                 real.nodes.push(s.addr);
             }
@@ -411,7 +415,7 @@ impl Property for C12 {
         v
     }
     fn rule(&self) -> &'static str {
-        "one real node (serving or read-only) with 2..20 stubs (0..2 of them configured as routers) whose accepted answers also name the node's own id, router addresses, duplicates and up to 40 unreachable addresses; 0..3 searches; contacts named exactly once that never answer (dropped as bad within a minute) send queries from their own address and id 2..5 minutes later; an adversary sends 5..60 datagrams from unknown addresses while the node bootstraps / idles / searches: the four query kinds (some claiming the id of a node the victim only knows by hearsay), unsolicited responses sent from the very address and id of such a hearsay-only node, responses with ids of length 0..32 != 8 (random, or derived from an id the node really used by appending or cutting bytes), and 8-byte ids whose action prefix is >= 2^32 (never handed out), some before any request was sent, each naming up to 8 further adversary identities and carrying unique values; message faults (drop, delay, duplicate, reorder, send errors, stalls) at swarm-drawn rates, plus a single-fault sweep; table dump and load_contacts sampled every 0.7..4.3 s. non-trivial = unsolicited datagrams were sent and the table held at least one node; distinct = distinct order digests"
+        "one real node (serving or read-only) with 2..20 stubs (0..2 of them configured as routers, some of those listed as starting nodes too) whose accepted answers also name the node's own id, router addresses, duplicates and up to 40 unreachable addresses; 0..3 searches; contacts named exactly once that never answer (dropped as bad within a minute) send queries from their own address and id 2..5 minutes later; an adversary sends 5..60 datagrams from unknown addresses while the node bootstraps / idles / searches: the four query kinds (some claiming the id of a node the victim only knows by hearsay), unsolicited responses sent from the very address and id of such a hearsay-only node, responses with ids of length 0..32 != 8 (random, or derived from an id the node really used by appending or cutting bytes), and 8-byte ids whose action prefix is >= 2^32 (never handed out), some before any request was sent, each naming up to 8 further adversary identities and carrying unique values; message faults (drop, delay, duplicate, reorder, send errors, stalls) at swarm-drawn rates, plus a single-fault sweep; table dump and load_contacts sampled every 0.7..4.3 s. non-trivial = unsolicited datagrams were sent and the table held at least one node; distinct = distinct order digests"
     }
     fn assumptions(&self) -> Vec<&'static str> {
         vec!["in-flight corruption is off in this family: adversary identities are recognised by value in table dumps", "forged responses that reuse a low, guessable action prefix or a timed-out id of a live search are deliberately not asserted (the statement does not cover them)"]
